@@ -960,6 +960,9 @@ def aimed_shapes() -> list[tuple[str, list[list[tuple]]]]:
         # the join of an `if` in the default body lies inside a sibling case body (found by a random list, seed 0)
         ("if-join-in-sibling-case-body", [[sw, ca(9), ca(9), ca(7), jp(6), cx, br(8), fl, pl, H]]),
         ("if-join-in-sibling-case-body-2", [[sw, ca(8), ca(8), ca(6), jp(5), br(7), fl, pl, H]]),
+        # compiler-shaped nested ifs (else part first): the inner if sits in the else part of the outer one, one of its sides jumps
+        # into code already written in the outer if part, the other continues at the shared tail written there as well
+        ("inner-if-in-else-part-joins-tail-of-if-part", [[br(7), pl, br(5), pl, jp(10), pl, jp(9), pl, br(12), pl, pl, E, pl, E]]),
         ("switch-scenario-casescenario", [[("swscn",), ("casescn", (0, 3)), R, pl, R]]),
         ("switch-menu", [[("swmenu",), ("casemenu", (0, 4)), ("casemenu2", (0, 6)), R, pl, jp(7), pl, R]]),
         ("switch-menu-default", [[("swmenu",), ("casemenu", (0, 3)), pl, pl, R]]),
